@@ -140,7 +140,7 @@ void vrt_violation(const char *key, const char *fmt, ...)
 {
     va_list ap;
     pthread_mutex_lock(&g_out_lock);
-    g_nviol++;
+    __atomic_fetch_add(&g_nviol, 1, __ATOMIC_RELAXED);
     int dup = 0;
     for (int i = 0; i < g_nviol_stored; i++)
         if (!strcmp(g_viol[i].key, key))
@@ -587,8 +587,22 @@ static void crash_handler(int sig)
     raise(sig);
 }
 
+#ifdef PMODELS_ARGOBOTS_VERIF
+/* monitors inside the library (abtd_verif_fiber.h) report through this */
+extern void (*volatile ABTI_verif_fail_f)(const char *what);
+static void lib_monitor_fail(const char *what)
+{
+    vrt_violation("ctx:occupancy", "library monitor: %s", what);
+    emit_result("lib-monitor", "violated");
+    _exit(1);
+}
+#endif
+
 void vrt_init(int argc, char **argv, const char *harness)
 {
+#ifdef PMODELS_ARGOBOTS_VERIF
+    ABTI_verif_fail_f = lib_monitor_fail;
+#endif
     g_argc = argc;
     g_argv = argv;
     g_harness = harness;
